@@ -263,6 +263,11 @@ def _program(rng, *, n_state=(1, 5), n_control=(0, 3), n_calib=(0, 3), n_sensor=
         else:
             rnames = _pick_names(rng, P["reading"] + state, m, set())
         if kind != "sym":
+            # a reading named like the generated reading struct (sensor 't1' -> struct T1, accessor T1()) is a
+            # C++ identifier clash of the naming scheme, outside the name space of DESIGN 1.3
+            clash = {sn.title(), sn.upper(), sn}
+            if any(r in clash for r in rnames):
+                rnames = [r for r in rnames if r not in clash] or _pick_names(rng, P["reading"], 1, clash | set(rnames))
             prev_rnames = list(rnames)
         sshared = []
         if m >= 2:
